@@ -55,7 +55,7 @@ def propagatorSolver_for1 {n : Nat} {K : Type} [DecidableEq K] [OfNat K 0] [Neg 
           let update_expr : List (Fin n × List (Propagator.Term n K)) := (update_expr ++ [(row, update_expr_terms)])
           propagatorSolver_for1 A b cnz order Pnz rest__ P_expr update_expr
 
-/-- `generate_propagator_solver` -- the assembly loop. Entries of `A`, `b` are values of a type `K`; `_is_zero` tests are `= 0` (for `c` and `P`: the Boolean patterns `cnz`, `Pnz`); the four string concatenations appended to `update_expr_terms` are the constructors of `Propagator.Term` (an edit of any of these strings makes the translation fail); `P_expr` collects the (row, col) pairs whose propagator symbol is defined; re-parsing and `_custom_simplify_expr` of the joined string are denotation-preserving contracts (dropped) -/
+/-- `generate_propagator_solver` -- the assembly loop. Entries of `A`, `b` are values of a type `K`; `_is_zero` tests are `= 0` (for `c` and `P`: the Boolean patterns `cnz`, `Pnz`); the four string concatenations appended to `update_expr_terms` are the constructors of `Propagator.Term` (an edit of any of these strings makes the translation fail); `P_expr` collects the (row, col) pairs whose propagator symbol is defined - the model names a propagator by its pair, which is what the three naming statements (the format string, the loop that makes a name unique, the `P_name` table) achieve since the F17 fix; re-parsing and `_custom_simplify_expr` of the joined string are denotation-preserving contracts (dropped) -/
 def propagatorSolver {n : Nat} {K : Type} [DecidableEq K] [OfNat K 0] [Neg K] [Div K] (A : Fin n → Fin n → K) (b : Fin n → K) (cnz : Fin n → Bool) (order : Fin n → Nat) (Pnz : Fin n → Fin n → Bool) : Except Propagator.AsmErr (List (Fin n × Fin n) × List (Fin n × List (Propagator.Term n K))) :=
   let P_expr : List (Fin n × Fin n) := []
   let update_expr : List (Fin n × List (Propagator.Term n K)) := []
